@@ -15,6 +15,13 @@ CONNECTS = ["MT_CONNECT", "MT_CONNECT_V2"]
 NEVER = ["MT_DISCONNECT", "MT_CLIENT_SET_NAME", "MT_MODULE_READY", None]
 
 
+def _anc(n):
+    a = getattr(n, "_parent", None)
+    while a is not None:
+        yield a
+        a = getattr(a, "_parent", None)
+
+
 def module_param(prog, ty, f):
     mc = prog.cls(MGR, "Module")
     for p in f.params():
@@ -50,17 +57,93 @@ def run(prog: Program, chk: Check):
     # ---- C19-D -----------------------------------------------------------------------
     D = chk.rule("C19-D", "per control type: exactly one send_ack(src) on every path; connect: iff connect_module(...) truthy; never for the rest", 10,
                  "a path with 0 or 2 acknowledgements, or an ack for a refused/other frame, contradicts 'exactly one ... never'")
+    # the acknowledgement may be issued by the dispatcher or by the handler it calls (a handler of the manager that
+    # acknowledges exactly once on every one of its normal paths, and its own module parameter, counts as one ack at its call site)
+    _ar = {}
+
+    def ack_range(f, depth=0):
+        """(lo, hi, module argument ok) of send_ack calls over the normal paths of manager method f, handlers included"""
+        if f.key in _ar:
+            return _ar[f.key]
+        _ar[f.key] = (0, 0, True)  # recursion guard
+        fg = C.build(f.node)
+        try:
+            fp = module_param(prog, ty, f)
+        except AnalysisError:
+            fp = None
+        ones, irregular, argok = set(), [], True
+        for n in fg.nodes:
+            for c in node_calls(n):
+                if is_ack(c):
+                    ones.add(n.id)
+                    argok = argok and len(c.args) == 1 and fp is not None and path_of(c.args[0]) == fp
+                elif depth < 3 and isinstance(c.func, ast.Attribute) and path_of(c.func.value) == "self" and c.func.attr in mm.methods and c.func.attr not in ("send_ack", f.name):
+                    h = mm.methods[c.func.attr]
+                    if sack.key in cg.may_call(h) or any(is_ack(x) for x in calls_in(h.node)):
+                        lo_, hi_, ok_ = ack_range(h, depth + 1)
+                        hp = None
+                        try:
+                            hp = module_param(prog, ty, h)
+                        except AnalysisError:
+                            pass
+                        b_ = callgraph.bind_args(h, c, bound_method=True)
+                        passes = hp is not None and fp is not None and path_of(b_.get(hp)) == fp
+                        if (lo_, hi_) == (1, 1):
+                            ones.add(n.id)
+                            argok = argok and ok_ and passes
+                        elif (lo_, hi_) != (0, 0):
+                            irregular.append((h.name, lo_, hi_))
+        lo, hi = flow.count_on_paths(fg, ones, [fg.entry.id], [fg.exit.id], follow=lambda e: e.kind not in ("exc", "except"))
+        if irregular:
+            lo, hi = min(lo, 0), max(hi, 2) if any(h_ > 1 for _, _, h_ in irregular) else max(hi, 1)
+            lo = 0 if any(l_ == 0 for _, l_, _ in irregular) else lo
+        _ar[f.key] = (lo, hi, argok)
+        return _ar[f.key]
+
+    def ack_nodes_pm():
+        out, irr, argbad = set(), [], []
+        for n in g.nodes:
+            for c in node_calls(n):
+                if is_ack(c):
+                    out.add(n.id)
+                elif isinstance(c.func, ast.Attribute) and path_of(c.func.value) == "self" and c.func.attr in mm.methods and c.func.attr != "send_ack":
+                    h = mm.methods[c.func.attr]
+                    if any(is_ack(x) for x in calls_in(h.node)) or sack.key in cg.may_call(h):
+                        lo_, hi_, ok_ = ack_range(h, 1)
+                        if (lo_, hi_) == (1, 1):
+                            out.add(n.id)
+                            hp = None
+                            try:
+                                hp = module_param(prog, ty, h)
+                            except AnalysisError:
+                                pass
+                            b_ = callgraph.bind_args(h, c, bound_method=True)
+                            if not ok_ or hp is None or path_of(b_.get(hp)) != src:
+                                argbad.append((n.id, norm(c)))
+                        elif (lo_, hi_) != (0, 0):
+                            irr.append((n.id, h.name, lo_, hi_))
+        return out, irr, argbad
+
+    ackset, irregular_h, argbad_h = ack_nodes_pm()
     for t in SUB_CTRL:
         fol = d.follow_under(t)
-        lo, hi = flow.count_on_paths(g, lambda n: any(is_ack(c) for c in node_calls(n)), [g.entry.id], [g.exit.id], follow=fol)
-        D.decide((lo, hi) == (1, 1), fkey(pm, f"{t}:ack-count"), where(pm), f"{t}: exactly one send_ack on every path",
-                 f"{t}: number of send_ack calls on a path through the branch ranges over [{lo}, {hi}], expected exactly 1")
+        under = d.nodes_under(t)
+        lo, hi = flow.count_on_paths(g, lambda n: n.id in ackset, [g.entry.id], [g.exit.id], follow=fol)
+        irr_t = [x for x in irregular_h if x[0] in under]
+        D.decide((lo, hi) == (1, 1) and not irr_t, fkey(pm, f"{t}:ack-count"), where(pm), f"{t}: exactly one send_ack on every path",
+                 f"{t}: number of send_ack calls on a path through the branch ranges over [{lo}, {hi}], expected exactly 1"
+                 + ("; handler " + ", ".join(f"{h}() acknowledges between {a} and {b} times depending on its path" for _, h, a, b in irr_t) if irr_t else ""))
         for n in d.call_nodes(is_ack, under=t):
             for c in node_calls(n):
                 if is_ack(c):
                     okarg = len(c.args) == 1 and path_of(c.args[0]) == src
                     D.decide(okarg, fkey(pm, f"{t}:ack-arg"), where(pm, c), "acknowledges the source module",
                              f"{t}: send_ack called with {norm(c)} instead of the source module `{src}`")
+        for nid, txt in argbad_h:
+            if nid in under:
+                D.bad(fkey(pm, f"{t}:ack-arg"), where(pm), f"{t}: the handler call `{txt}` does not acknowledge the source module `{src}`")
+        if not d.call_nodes(is_ack, under=t) and not any(nid in under for nid, _ in argbad_h) and any(n_ in under for n_ in ackset):
+            D.ok(fkey(pm, f"{t}:ack-arg"), where(pm), "the handler acknowledges the module it is handed, the source module")
     for t in CONNECTS:
         ids = d.nodes_under(t)
         fol = d.follow_under(t)
@@ -142,7 +225,11 @@ def run(prog: Program, chk: Check):
     O = chk.rule("C19-O", "MessageManager.send_ack is called only from process_message (never from handlers with early returns)", 1,
                  "an ack inside a handler is skipped by its early returns or doubled with the dispatcher's")
     for cf, cc in cg.call_sites_of(sack.key):
-        O.decide(cf.key == pm.key, fkey(cf, cc), where(cf, cc), "called from the dispatcher", f"send_ack called from {cf.qual}")
+        okc = cf.key == pm.key
+        if not okc and cf.cls is mm:
+            lo_, hi_, ok_ = ack_range(cf)
+            okc = (lo_, hi_) == (1, 1) and ok_  # a handler none of whose paths skips or repeats the acknowledgement
+        O.decide(okc, fkey(cf, cc), where(cf, cc), "called from the dispatcher (or a handler that acknowledges exactly once on every path)", f"send_ack called from {cf.qual}")
     msack = prog.func(MGR, "Module.send_ack")
     for cf, cc in cg.call_sites_of(msack.key):
         O.bad(fkey(cf, cc), where(cf, cc), f"Module.send_ack (second acknowledgement path) called from {cf.qual}")
@@ -179,7 +266,10 @@ def run(prog: Program, chk: Check):
         esc = flow.must_follow(ag, [ag.entry], [dn], exits=("exit",))
         A.decide(not esc, fkey(sack, "direct-send-every-path"), where(sack), "direct send on every path", "a path returns without the direct send")
         lg = [n for n in ag.nodes for c in node_calls(n) if self_call("send_to_loggers")(c)]
-        okl = bool(lg) and not flow.must_follow(ag, [ag.entry], lg, exits=("exit",))
+        # ... or the fan-out written in place: a loop over (a snapshot of) self.logger_modules that sends to each logger
+        lg_loops = [n for n in ag.nodes if n.kind == "for" and "logger_modules" in norm(n.ast.iter)
+                    and any(is_method_call(cc, "send_message") and path_of(recv_of(cc)) == path_of(n.ast.target) for cc in calls_in(n.ast))]
+        okl = bool(lg or lg_loops) and not flow.must_follow(ag, [ag.entry], lg + lg_loops, exits=("exit",))
         A.decide(okl, fkey(sack, "logger-copy-every-path"), where(sack), "logger copy on every normal path, including after a failed direct send",
                  "a normal path (e.g. the failure handler) skips send_to_loggers")
         for n in lg:
@@ -187,6 +277,11 @@ def run(prog: Program, chk: Check):
                 if self_call("send_to_loggers")(c):
                     A.decide(bool(c.args) and path_of(c.args[0]) == hname, fkey(sack, "logger-copy-same-header"), where(sack, c),
                              "logger copy carries the same header", f"logger copy sends {norm(c)}")
+        for n in lg_loops:
+            for cc in calls_in(n.ast):
+                if is_method_call(cc, "send_message") and path_of(recv_of(cc)) == path_of(n.ast.target):
+                    A.decide(bool(cc.args) and path_of(cc.args[0]) == hname, fkey(sack, "logger-copy-same-header"), where(sack, cc),
+                             "logger copy carries the same header", f"logger copy sends {norm(cc)}")
 
         # ---- C19-X exactly one on the requester's own connection --------------------------------
         X = chk.rule("C19-X", "a requester that is itself a logger must not get both the direct ack and the logger copy", 1,
@@ -195,8 +290,25 @@ def run(prog: Program, chk: Check):
         excl_goal = guards.parse(f"not {sp}.is_logger")
         direct_guarded = not guards.any_path_implies(gsa.at(dn), excl_goal)
         copy_excludes = False
-        stl = prog.func(MGR, "MessageManager.send_to_loggers")
-        for n in lg:
+        stl = mm.methods.get("send_to_loggers")
+        if stl is None and not lg_loops:
+            raise AnalysisError("anchor vanished: MessageManager.send_to_loggers (and no logger fan-out loop in send_ack)")
+        for n in lg_loops:
+            # in-place fan-out: the send inside the loop is guarded by `module is not <requester>`
+            rv = path_of(n.ast.target)
+            okall = True
+            nsend = 0
+            for m in ag.nodes:
+                if m.ast is None or not any(a is n.ast for a in _anc(m.ast)):
+                    continue
+                for cc in node_calls(m):
+                    if is_method_call(cc, "send_message") and path_of(recv_of(cc)) == rv:
+                        nsend += 1
+                        pth = [list(p_) for p_ in gsa.at(m)]
+                        if guards.any_path_implies(pth, guards.parse(f"{rv} is not {sp}")) and guards.any_path_implies(pth, guards.parse(f"{rv} != {sp}")):
+                            okall = False
+            copy_excludes = copy_excludes or (okall and nsend > 0)
+        for n in (lg if stl is not None else []):
             for c in node_calls(n):
                 if self_call("send_to_loggers")(c):
                     b = callgraph.bind_args(stl, c, bound_method=True)
